@@ -152,7 +152,12 @@ class EvalMixin(InterpBase):
     def ev_BoolOp(self, node, fr):
         is_and = isinstance(node.op, ast.And)
         if fr.spec:
-            vals = [truth(self.ev(v, fr)) for v in node.values]
+            vals = []
+            for v in node.values:
+                t = truth(self.ev(v, fr))
+                if t is (not is_and):
+                    return t             # decided: later operands may not even be well-defined (Python would not evaluate them)
+                vals.append(t)
             return zand(*vals) if is_and else zor(*vals)
         v = None
         for i, sub in enumerate(node.values):
